@@ -436,6 +436,72 @@ int main(int argc, char** argv) {
         fprintf(fc, "Z %zu\n", b); fprintf(fi, "%s\n", read_verdict(crash, t).c_str()); stats["hole_zero_block"]++;
       }
     }
+    // ---- mutated files: the tie of the reader's validation (counts, finite and non-decreasing knots). These are NOT crash
+    //      states: the final file with a knot vector, an ORDERn value or a knot count replaced; model and implementation
+    //      must give the same verdict (rej / eq / diff), nothing else is asked of them.
+    {
+      auto rup = [](size_t n) { return (n + 2879) / 2880 * 2880; };
+      auto be64 = [](uint64_t w) { std::vector<unsigned char> b(8); for (int j = 0; j < 8; j++) b[j] = (unsigned char)(w >> (56 - 8 * j)); return b; };
+      auto bytes_of = [&](const std::vector<uint64_t>& v) { std::vector<unsigned char> b; for (uint64_t w : v) { auto x = be64(w); b.insert(b.end(), x.begin(), x.end()); } return b; };
+      typedef std::vector<std::pair<size_t, std::vector<unsigned char>>> Patches;
+      auto emitX = [&](const Patches& ps, const char* kind) {
+        std::vector<unsigned char> Mf = F;
+        for (auto& q : ps) { if (q.first + q.second.size() > Mf.size()) return; memcpy(Mf.data() + q.first, q.second.data(), q.second.size()); }
+        spit(crash, Mf.data(), Mf.size());
+        fprintf(fc, "X"); for (auto& q : ps) fprintf(fc, " %zu %s", q.first, hex(q.second.data(), q.second.size()).c_str()); fprintf(fc, "\n");
+        fprintf(fi, "%s kind=%s\n", read_verdict(crash, t).c_str(), kind); stats[std::string("mutated_") + kind]++;
+      };
+      size_t cend = 0; while (80 * (cend + 1) <= F.size() && memcmp(F.data() + 80 * cend, "END     ", 8)) cend++;
+      uint64_t ncf = t.strides[0] * t.naxes[0];
+      size_t pos = (cend / 36 + 1) * 2880 + rup(4 * ncf);
+      // a sorted ladder of n finite doubles across zero: negative normals and subnormals, -0, +0, positive subnormals, normals, DBL_MAX
+      auto ladder = [&](size_t n) {
+        std::vector<double> v;
+        for (size_t j = 0; j < n; j++) {
+          uint64_t mag; switch (r.below(6)) { case 0: mag = 0; break; case 1: mag = 1 + r.below(4); break; case 2: mag = r.next() & 0x000fffffffffffffULL; break;
+            case 3: mag = 0x7fefffffffffffffULL - r.below(3); break; default: mag = ((uint64_t)r.range(1, 2046) << 52) | (r.next() & 0x000fffffffffffffULL); break; }
+          uint64_t w = mag | (r.coin() ? 0x8000000000000000ULL : 0); double d; memcpy(&d, &w, 8); v.push_back(d);
+        }
+        std::sort(v.begin(), v.end());
+        std::vector<uint64_t> b; for (double d : v) b.push_back(bits(d)); return b;
+      };
+      uint32_t only = (!thorough && F.size() / 2880 > 100) ? (uint32_t)r.below(t.ndim) : t.ndim;   // huge files in the quick tier: one dimension
+      for (uint32_t i = 0; i < t.ndim; i++) {
+        size_t khdr = pos, kdat = pos + 2880; uint64_t nk = t.nknots[i]; pos += 2880 + rup(8 * nk);
+        if (only != t.ndim && only != i) continue;
+        if (kdat + 8 * nk > F.size() || memcmp(F.data() + khdr, "XTENSION", 8)) { stats["mutated_layout_unexpected"]++; break; }
+        std::vector<uint64_t> V(nk); for (uint64_t j = 0; j < nk; j++) V[j] = bits(t.knots[i][j]);
+        static const uint64_t nonfin[] = {0x7ff8000000000000ULL, 0x7ff0000000000000ULL, 0xfff0000000000000ULL, 0x7ff0000000000001ULL, 0xfff8000000000000ULL, 0x7fffffffffffffffULL};
+        { uint64_t j = r.below(nk); emitX({{kdat + 8 * j, be64(nonfin[r.below(6)])}}, "nonfinite"); }
+        { uint64_t j = r.below(nk - 1); std::vector<uint64_t> two = {V[j + 1], V[j]}; emitX({{kdat + 8 * j, bytes_of(two)}}, "swap"); }
+        { uint64_t j = 1 + r.below(nk - 1); uint64_t x = V[j - 1];
+          uint64_t below = (x << 1) == 0 ? 0x8000000000000001ULL : (x >> 63) ? x + 1 : x - 1;   // the next double below k[j-1]
+          emitX({{kdat + 8 * j, be64(below)}}, "ulp_below"); emitX({{kdat + 8 * j, be64(x)}}, "repeated");
+          emitX({{kdat + 8 * j, be64(x ^ ((x << 1) == 0 ? 0x8000000000000000ULL : 0))}}, "repeated_zero_sign"); }
+        if (nk <= 3000) {
+          std::vector<uint64_t> Zs(nk); for (uint64_t j = 0; j < nk; j++) Zs[j] = (j % 2) ? 0x8000000000000000ULL : 0; emitX({{kdat, bytes_of(Zs)}}, "signed_zeros");
+          std::vector<uint64_t> L = ladder(nk); emitX({{kdat, bytes_of(L)}}, "ladder");
+          uint64_t j = r.below(nk - 1); std::swap(L[j], L[j + 1]); emitX({{kdat, bytes_of(L)}}, "ladder_swapped");
+        }
+        // ORDERi card (value in column 30) and the NAXIS1 card of the KNOTSi header (4th card, value field columns 11..30)
+        char key[16]; snprintf(key, sizeof key, "%-8s", ("ORDER" + std::to_string(i)).c_str());
+        size_t oc = 0; while (oc < cend && memcmp(F.data() + 80 * oc, key, 8)) oc++;
+        if (oc == cend || t.order[i] > 9) { stats["mutated_layout_unexpected"]++; continue; }
+        auto digit = [&](uint32_t o) { return std::vector<unsigned char>(1, (unsigned char)('0' + o)); };
+        auto field = [&](uint64_t n) { char b[32]; snprintf(b, sizeof b, "%20llu", (unsigned long long)n); return std::vector<unsigned char>(b, b + 20); };
+        { uint32_t o2 = (t.order[i] + 1 + (uint32_t)r.below(9)) % 10; emitX({{80 * oc + 29, digit(o2)}}, "order_changed"); }
+        // order and number of knots changed together (naxes stays): consistent counts, enough knots or not
+        for (int o2 = 0; o2 <= 9; o2++) {
+          uint64_t nk2 = t.naxes[i] + o2 + 1;
+          if ((uint32_t)o2 == t.order[i] || rup(8 * nk2) != rup(8 * nk) || nk2 > 3000) continue;
+          bool enough = nk2 >= 2 * (uint64_t)o2 + 2;
+          if (!enough && o2 > (int)t.naxes[i] + 1) continue;   // one or two cases just below the limit are enough
+          emitX({{80 * oc + 29, digit(o2)}, {khdr + 3 * 80 + 10, field(nk2)}, {kdat, bytes_of(ladder(nk2))}}, enough ? "order_and_knots_consistent" : "too_few_knots");
+          // the same with the knot count off by one
+          if (o2 == (int)t.order[i] + 1 || o2 + 1 == (int)t.order[i]) emitX({{80 * oc + 29, digit(o2)}, {khdr + 3 * 80 + 10, field(nk2 + 1)}, {kdat, bytes_of(ladder(nk2 + 1))}}, "counts_off_by_one");
+        }
+      }
+    }
     // ---- libc faults: one failing operation per run
     {
       std::vector<int> idx;
